@@ -822,7 +822,9 @@ class DestHandler:
             ):
                 raise PermissionError(f"creating {self._params.fp.file_name} not allowed")
             self._params.finished_params.file_status = FileStatus.FILE_RETAINED
-        except PermissionError:
+        except OSError:
+            # Any refusal of the filestore, for example the destination name is an existing
+            # directory.
             self._params.finished_params.file_status = FileStatus.DISCARDED_FILESTORE_REJECTION
             self._declare_fault(ConditionCode.FILESTORE_REJECTION)
 
